@@ -149,6 +149,7 @@ type edit struct {
 	kind   string // set | setzero | change | clear | append | remove | reorder
 	detail string
 	tagged bool // a hash:"ignore" tag lies on the path (informational only)
+	prep   func(root reflect.Value) // optional: reshapes the base object first (Hash "before" is taken after prep)
 	apply  func(root reflect.Value)
 }
 
@@ -319,6 +320,7 @@ func walk(t reflect.Type, path string, steps []step, tagged bool, rich bool, out
 					v.Set(s)
 				})
 			}
+			pairEdits(t, path, loc, tagged, out)
 			walk(t.Elem(), path+"[0]", append(append([]step{}, steps...), func(v reflect.Value) reflect.Value {
 				if v.Len() == 0 {
 					return reflect.Value{}
@@ -404,6 +406,87 @@ func walk(t reflect.Type, path string, steps []step, tagged bool, rich bool, out
 					v.Set(m)
 				}
 			})
+		}
+	}
+}
+
+// pairEdits: lists whose elements share PART of their identity, and exact duplicates.  For a slice of structs and
+// every field f of the element: the list becomes [e1, e2, e3] with e2 = e1 except for field f (e3 unrelated); on it
+// every permutation, removal of either member of the pair, a change of every field of e2, and the append of a third
+// element differing from e1 only in f.  For every slice: [e1, e1, e3] (exact duplicate) under every permutation.
+func pairEdits(t reflect.Type, path string, loc func(reflect.Value) reflect.Value, tagged bool, out *[]edit) {
+	et := t.Elem()
+	mk := func(variant int) reflect.Value {
+		e := reflect.New(et).Elem()
+		fill(e, variant)
+		return e
+	}
+	setList := func(v reflect.Value, elems ...reflect.Value) {
+		s := reflect.MakeSlice(t, len(elems), len(elems))
+		for i, e := range elems {
+			s.Index(i).Set(e)
+		}
+		v.Set(s)
+	}
+	add := func(kind, detail string, prep, f func(v reflect.Value)) {
+		*out = append(*out, edit{path: path, kind: kind, detail: detail, tagged: tagged,
+			prep: func(root reflect.Value) {
+				if v := loc(root); v.IsValid() && v.CanSet() {
+					prep(v)
+				}
+			},
+			apply: func(root reflect.Value) {
+				if v := loc(root); v.IsValid() && v.CanSet() {
+					f(v)
+				}
+			}})
+	}
+	perms := func(detail string, prep func(v reflect.Value)) {
+		for _, perm := range permutations(3)[1:] {
+			perm := perm
+			add("reorder", detail+":"+fmt.Sprint(perm), prep, func(v reflect.Value) {
+				elems := make([]reflect.Value, 3)
+				for j, k := range perm {
+					c := reflect.New(et).Elem()
+					c.Set(v.Index(k))
+					elems[j] = c
+				}
+				setList(v, elems...)
+			})
+		}
+	}
+	dup := func(v reflect.Value) { setList(v, mk(1), mk(1), mk(21)) }
+	perms("duplicate", dup)
+	if et.Kind() != reflect.Struct || isLeafJSON(et) {
+		return
+	}
+	for i := 0; i < et.NumField(); i++ {
+		f := et.Field(i)
+		if !f.IsExported() || jsonName(f) == "-" {
+			continue
+		}
+		i, fname := i, jsonName(f)
+		pair := func(v reflect.Value) {
+			e2 := mk(1)
+			fill(e2.Field(i), 2)
+			setList(v, mk(1), e2, mk(21))
+		}
+		d := "pair-differs-in-" + fname
+		perms(d, pair)
+		add("remove", d+":second", pair, func(v reflect.Value) { setList(v, v.Index(0), v.Index(2)) })
+		add("remove", d+":first", pair, func(v reflect.Value) { setList(v, v.Index(1), v.Index(2)) })
+		add("append", d+":third-of-the-kind", pair, func(v reflect.Value) {
+			e4 := mk(1)
+			fill(e4.Field(i), 3)
+			v.Set(reflect.Append(v, e4))
+		})
+		for k := 0; k < et.NumField(); k++ {
+			g := et.Field(k)
+			if !g.IsExported() || jsonName(g) == "-" {
+				continue
+			}
+			k := k
+			add("change", d+":second."+jsonName(g), pair, func(v reflect.Value) { fill(v.Index(1).Field(k), 3) })
 		}
 	}
 }
@@ -499,10 +582,16 @@ func HashWalk(args []string) error {
 			"documented": DocumentedNonDrifting})
 		var edits []edit
 		walk(reflect.TypeOf(v1.NodePoolSpec{}), "", nil, false, b.rich, &edits)
-		before := hashOf(b.spec)
-		jb := specJSON(b.spec)
+		before0 := hashOf(b.spec)
+		jb0 := specJSON(b.spec)
 		for _, e := range edits {
 			cp := b.spec.DeepCopy()
+			before, jb := before0, jb0
+			if e.prep != nil {
+				e.prep(reflect.ValueOf(cp).Elem())
+				before, jb = hashOf(cp), specJSON(cp)
+				cp = cp.DeepCopy()
+			}
 			e.apply(reflect.ValueOf(cp).Elem())
 			after := hashOf(cp)
 			changed := !bytes.Equal(jb, specJSON(cp))
@@ -517,7 +606,7 @@ func HashWalk(args []string) error {
 			cp := b.spec.DeepCopy()
 			shuffleAll(reflect.ValueOf(cp).Elem(), rng)
 			tw.Emit(trace.M{"e": "Call", "fn": "Hash", "base": b.name, "path": "*", "kind": "reorder", "detail": "shuffle-all-" + strconv.Itoa(i),
-				"cls": "template", "tagged": false, "changed": !bytes.Equal(jb, specJSON(cp)), "before": before, "after": hashOf(cp)})
+				"cls": "template", "tagged": false, "changed": !bytes.Equal(jb0, specJSON(cp)), "before": before0, "after": hashOf(cp)})
 		}
 	}
 	files := tw.Close()
